@@ -46,6 +46,37 @@ bits! {
 	c01q_bits_lsb_o2_n4: Lsb0, 2, 4, false; c01t_bits_lsb_o1_n5: Lsb0, 1, 5, false;
 }
 
+/// C01/C06: an OWNED bit vector whose storage holds stale bits behind its end (decoded from bytes with non-zero padding; the
+/// decoder does not inspect padding) must still encode with ZERO padding: equal vectors encode equally, whatever their history
+#[cfg(any(feature = "c01", feature = "c06"))]
+#[kani::proof]
+#[kani::unwind(10)]
+pub fn c06q_bitvec_stale_padding_is_not_encoded() {
+	let w: u8 = kani::any();
+	let payload = [w];
+	let r = BitVec::<u8, Lsb0>::decode(&mut Pre::count(5, &payload[..]));
+	let v = match r { Ok(v) => v, Err(_) => { assert!(false, "5 bits with 1 byte present must decode"); return } };
+	let mut real = Buf::<4>::new();
+	v.encode_to(&mut real);
+	assert!(real.n == 2 && real.d[0] == 5 << 2, "bit vector: wrong length or count prefix");
+	assert!(real.d[1] == w & 0x1f, "bit vector: bits behind the end of the vector leaked into the encoding (padding must be zero)");
+	kani::cover!(w & 0xe0 != 0, "reach: stale bits present in storage");
+	core::mem::forget(v);
+}
+/// C01/C06: a boxed bit slice that starts INSIDE its first storage word encodes its own bits, not the word's
+#[cfg(any(feature = "c01", feature = "c06"))]
+#[kani::proof]
+#[kani::unwind(10)]
+pub fn c06q_bitbox_at_offset() {
+	let w: [u8; 1] = kani::any();
+	let b: BitBox<u8, Lsb0> = BitBox::from_bitslice(&w.view_bits::<Lsb0>()[2..5]);
+	let mut real = Buf::<4>::new();
+	b.encode_to(&mut real);
+	assert!(real.n == 2 && real.d[0] == 3 << 2);
+	assert!(real.d[1] == (w[0] >> 2) & 7, "boxed bit slice: encoding ignores the offset of the box inside its first word");
+	core::mem::forget(b);
+}
+
 /// C03: BitVec<u8,Lsb0>::decode with a concrete bit count C (one-byte prefix) over ALL payloads of symbolic length <= L:
 /// accepted iff ceil(C/8) bytes are present; the live bits are the input bits (read through the raw storage words: per-bit
 /// indexing drags bitvec's pointer arithmetic into the query), consumption is exact; padding bits are not inspected.
@@ -88,6 +119,26 @@ pub fn c03q_bitvec_cap() {
 	assert!(r2.is_err());
 	core::mem::forget((r, r2));
 }
+/// the 2^29-1 cap must fire before any storage is announced/reserved (with the cap gone the count still fails later for lack
+/// of data, so the rejection alone does not show it): decode through an input that aborts at the first announcement
+#[cfg(any(feature = "c03", feature = "c02"))]
+#[kani::proof]
+#[kani::unwind(8)]
+pub fn c03q_bitvec_cap_fires_before_alloc() {
+	// 0x2000_0000 bits = the smallest count above the cap, canonical four-byte-mode compact (0x2000_0000 << 2) | 2 = 0x8000_0002
+	let input: [u8; 7] = [0x02, 0x00, 0x00, 0x80, 0xff, 0xff, 0xff];
+	let mut h = HookAbort { inner: &input[..], seen: None, descends: 0 };
+	let r = BitVec::<u8, Lsb0>::decode(&mut h);
+	assert!(r.is_err());
+	assert!(h.seen.is_none(), "a bit count above 2^29-1 reached the allocation path instead of being rejected by the cap");
+	// the largest accepted count does reach it
+	let ok: [u8; 7] = [0xfe, 0xff, 0xff, 0x7f, 0xff, 0xff, 0xff];
+	let mut h2 = HookAbort { inner: &ok[..], seen: None, descends: 0 };
+	let r2 = BitVec::<u8, Lsb0>::decode(&mut h2);
+	assert!(r2.is_err() && h2.seen.is_some(), "harness: 2^29-1 bits must be admitted by the cap");
+	core::mem::forget((r, r2));
+}
+
 /// C02: BitVec round trip within one store word
 #[cfg(any(feature = "c03", feature = "c02"))]
 #[kani::proof]
